@@ -181,3 +181,15 @@ def r06_5_recurrence_years(ctx: Ctx) -> RuleResult:
     for f in r.findings:
         f.rule = "R06.5"
     return r
+
+
+@rule("C06")
+def r06_6_decoders_restore_every_field(ctx: Ctx) -> RuleResult:
+    """Zones are what the bytes say only if every stored field of a rule comes back: shared with C14 (R14.2)."""
+    from .c14 import r14_2_decoders_restore_every_field
+
+    r = r14_2_decoders_restore_every_field(ctx)
+    r.rule = "R06.6"
+    for f in r.findings:
+        f.rule = "R06.6"
+    return r
